@@ -135,4 +135,14 @@ theorem failed_incrby_doesnt_modify (c : Ctx) (db : Db) (k : Bytes) (d : Int)
   split at herr <;> (try split at herr) <;> (try split at herr) <;> (try split_ifs at herr) <;>
     simp_all [R.ok, Value.isError]
 
+/-- WATCH of a key that is watched already keeps the version recorded by the first WATCH (repaired
+    behaviour: the second WATCH used to overwrite it, hiding a modification made in between) -/
+theorem rewatch_keeps_first (c : Ctx) (s : State) (conn ref : Nat) (k : Bytes) (id₀ : Nat)
+    (h : (ref, k, id₀) ∈ (s.session conn).watches) :
+    ((runCmd c s conn ref false (.watch [k])).st.session conn).watches = (s.session conn).watches := by
+  have hany : (s.session conn).watches.any (fun (x : Nat × Bytes × Nat) => x.1 == ref && x.2.1 == k) = true := by
+    rw [List.any_eq_true]
+    exact ⟨(ref, k, id₀), h, by simp⟩
+  simp [runCmd, hany]
+
 end RedisEmu
